@@ -40,7 +40,7 @@ CHECKS = {
    text="Every seed request (SELECT forms, six update forms, legacy aliases, rejected requests, RULE/REGISTER/RETRIEVE/ML.PREDICT), every single mutation of every seed (incl. multi-byte characters at every offset) and every short token string is submitted to execute_sparql_query, execute_sparql_update, SparqlDatabase::execute_update, handle_update and (SELECTs) the legacy entry point on fresh databases in four states; no panic, the query entry point never changes quads or catalog and refuses every Update, SELECTs never change data, failed updates leave the dataset unchanged.",
    note="Request classification taken from parse_combined_query (C16's subject); crash isolation by worker subprocess."),
  "C03": dict(level="model_checking", design="§3 C03", technique="explicit-state search over sequences of update requests executed on the real database (prefix replay on a fresh database), whole-dataset comparison with a SPARQL Update reference after every step",
-   text="BFS over sequences (depth 4 quick, 6 thorough) of a 34-request alphabet (the six update forms over default and named graphs, swapping / self-referential / graph-variable / blank-node templates, WHERE with FILTER/UNION/VALUES, unbound and literal-subject template variables, 11 malformed or rejected requests) from 3 initial datasets through SparqlDatabase::execute_update; after every step all quads of all graphs (up to blank-node renaming), the catalog bounds, the UpdateSummary counts and acceptance vs rejection are compared with R-update, and a rejected request must leave quads and catalog untouched.",
+   text="BFS over sequences (depth 4 quick, 6 thorough) of a 36-request alphabet (the six update forms over default and named graphs, swapping / self-referential / graph-variable / blank-node templates, WHERE with FILTER/UNION/VALUES, unbound and literal-subject template variables, 11 malformed or rejected requests) from 3 initial datasets through SparqlDatabase::execute_update; after every step all quads of all graphs (up to blank-node renaming), the catalog bounds, the UpdateSummary counts and acceptance vs rejection are compared with R-update, and a rejected request must leave quads and catalog untouched.",
    note="De-duplication on the abstract dataset (sound because the full physical content is compared through all_quads each step; index divergence is C04's subject); term universe U; reference R-update trusted (self-tested)."),
  "C16": dict(level="exploration", design="§3 C16", technique="bounded-exhaustive enumeration of token strings and of single/double mutations of a seed corpus through the real parsers under catch_unwind (crash-isolated workers) + print/parse round trip of every generated AST in 6 layouts",
    text="Totality: every string of <=3 (thorough <=4) tokens over a 30-token alphabet, spaced and glued, every single mutation of ~130 seed requests and every double mutation of the shortest seeds go through parse_combined_query, parse_combined_query_with_options(_, true), parse_sparql_query and parse_group_graph_pattern: never a panic, acceptance implies the whole input was consumed. Faithfulness: every query of the C01 generator list and every update form, printed in 6 layouts (whitespace, comments, keyword case, ;/, abbreviations, optional dots), must parse to a tree equal to the generated AST.",
